@@ -57,6 +57,12 @@ def r14_1(ctx, g):
     from ..core import detuple
 
     pe = detuple(repo, repo.func("gaftools.gfa", "GFA.path_exists", "R14.1"))
+    # a loop bound held in a temporary (`n_steps = len(path) - 1; for i in range(n_steps)`) is read in place
+    _bounds = {a.id for l in walk_own(pe.node) if isinstance(l, ast.For) and isinstance(l.iter, ast.Call) and norm(l.iter.func) == "range" for a in l.iter.args if isinstance(a, ast.Name)}
+    if _bounds:
+        from ..core import inline_pure_temps
+
+        pe = inline_pure_temps(pe)
     ctx.analysed_func(pe)
     cases = None
     for st in walk_own(pe.node):
@@ -71,6 +77,21 @@ def r14_1(ctx, g):
                     cases = ast.Assign(targets=[ast.Name(id=sub.value.id, ctx=ast.Store())], value=d)
                     ast.copy_location(cases, d)
     if cases is None:
+        # positive evidence of a weaker check: the step is decided by calls of a method that looks only at the neighbour
+        # ids of one side (`other in [x[0] for x in self.start]`), once from either node: the far side of the link is
+        # never compared within one link
+        weak = []
+        for c in walk_own(pe.node):
+            if isinstance(c, ast.Call) and isinstance(c.func, ast.Attribute):
+                callee = ctx.repo.resolve_call(pe, c)
+                if callee is not None and callee.cls is not None and callee is not pe:
+                    proj = [x for x in ast.walk(callee.node) if isinstance(x, (ast.ListComp, ast.GeneratorExp, ast.SetComp)) and isinstance(x.elt, ast.Subscript) and const_value(x.elt.slice, None) == 0 and norm(x.generators[0].iter) in ("self.start", "self.end")]
+                    member = [x for x in ast.walk(callee.node) if isinstance(x, ast.Compare) and isinstance(x.ops[0], (ast.In, ast.NotIn)) and any(p_ is x.comparators[0] for p_ in proj)]
+                    if member:
+                        weak.append(c)
+        if len(weak) >= 2:
+            ctx.violated("R14.1", pe.where(weak[0]), f"a step of the walk is accepted on two separate questions (`{norm(weak[0])[:50]}` and `{norm(weak[1])[:50]}`), each of which looks only at the neighbour ids of one side of one node: no single link has to connect the side left with the side entered, so with two links between the same two nodes (a two-node cycle `L a + b +`, `L b + a +`, or a self link) a step such as `>a<b` that no link realises is accepted and spelled", key_of(pe, "step-check-not-one-link"))
+            return
         raise AnalysisError("R14.1", pe.where(), "cannot find the step table of the walk check")
     tbl = {}
     for k, v in zip(cases.value.keys, cases.value.values):
@@ -107,6 +128,8 @@ def r14_1(ctx, g):
         prev = cur = None
         if isinstance(pl0.iter, ast.Call) and norm(pl0.iter.func) == "zip" and isinstance(pl0.target, ast.Tuple) and len(pl0.target.elts) == 2:
             prev, cur = norm(pl0.target.elts[0]), norm(pl0.target.elts[1])
+        elif isinstance(pl0.target, ast.Name) and isinstance(pl0.iter, ast.Call) and norm(pl0.iter.func) == "range" and [norm(a) for a in pl0.iter.args] in ([f"len({ppar}) - 1"], ["0", f"len({ppar}) - 1"]):
+            prev, cur = f"{ppar}[{pl0.target.id}]", f"{ppar}[{pl0.target.id} + 1]"  # pairs (i, i + 1) for i < len - 1
         elif isinstance(pl0.target, ast.Name):
             prev, cur = f"{ppar}[{pl0.target.id} - 1]", f"{ppar}[{pl0.target.id}]"
         for st in walk_stmts(pl0.body):
@@ -164,10 +187,12 @@ def r14_1(ctx, g):
     ctx.check(uses_ok and ok_get and cmp_ok, "R14.1", pe.where(), "the table row is selected by the orientation characters of the two steps; the set of the previous node named by the row is searched for (next node id, far side of the row)", key_of(pe, f"table-use:{uses_ok}:{ok_get}:{cmp_ok}"))
     # every consecutive pair is checked
     rng = [l for l in pe.node.body if isinstance(l, ast.For) and isinstance(l.iter, ast.Call) and norm(l.iter.func) == "range"]
-    ok_rng = bool(rng) and [norm(a) for a in rng[0].iter.args] == ["1", "len(ordered_path)".replace("ordered_path", pe.params[1])]
+    ok_rng = bool(rng) and [norm(a) for a in rng[0].iter.args] in (["1", f"len({pe.params[1]})"], [f"len({pe.params[1]}) - 1"], ["0", f"len({pe.params[1]}) - 1"])
     zips = [l for l in pe.node.body if isinstance(l, ast.For) and isinstance(l.iter, ast.Call) and norm(l.iter.func) == "zip" and [norm(a) for a in l.iter.args] == [pe.params[1], f"{pe.params[1]}[1:]"]]
     if zips and not rng:
         ok_rng, rng = True, zips  # for a, b in zip(path, path[1:]): all consecutive pairs
+    if not rng:
+        raise AnalysisError("R14.1", pe.where(), "cannot find the loop over the consecutive pairs of steps (range(1, len(path)) / zip(path, path[1:]))")
     ctx.check(ok_rng, "R14.1", pe.where(), "every consecutive pair of steps is checked (range(1, len(path)))", key_of(pe, "pair-range"))
     # per pair: the pair is rejected unless a matching link is found *for this pair*
     if rng:
@@ -251,6 +276,11 @@ def r14_2_3(ctx, g):
     repo = ctx.repo
     ep = repo.func("gaftools.gfa", "GFA.extract_path", "R14.2")
     ctx.analysed_func(ep)
+    if any(isinstance(c, ast.Call) and isinstance(c.func, ast.Attribute) and c.func.attr == "get" for c in walk_own(ep.node)) or any(isinstance(s_, ast.Assign) and isinstance(s_.value, ast.Dict) for s_ in walk_own(ep.node)):
+        # a look-up table of per-orientation readers (`{">": as_is, "<": rev_comp}.get(n[0])`): the case analysis it abbreviates
+        from ..core import expand_table_dispatch, fold_consts, inline_callable_aliases, inline_identity_calls
+
+        ep = fold_consts(inline_identity_calls(repo, inline_callable_aliases(expand_table_dispatch(ep))))
     loops = [l for l in ep.node.body if isinstance(l, ast.For)]
     if not loops:
         raise AnalysisError("R14.2", ep.where(), "no concatenation loop")
@@ -303,6 +333,9 @@ def r14_2_3(ctx, g):
             if not ok:
                 bad = (p, f"'<' step appends `{a}`")
         else:
+            piece = apps[0].args[0]
+            if isinstance(piece, ast.Call) and isinstance(piece.func, ast.Name) and repo.resolve_call(ep, piece) is None and piece.func.id not in ("str", "len"):
+                raise AnalysisError("R14.2", ep.where(loop), f"the piece appended is computed by `{piece.func.id}`, a callable chosen at run time: which orientation it serves is not traced")
             bad = (p, "a piece is appended without the step's orientation being examined")
     ctx.check(bad is None and seen == {">", "<"}, "R14.2", ep.where(loop), "each step appends exactly one piece: the node's sequence for '>', rev_comp of it for '<'", key_of(ep, f"spelling:{bad[1] if bad else ''}"), **({"path": bad[0].show(), "why": bad[1]} if bad else {}))
     # complement table
@@ -389,6 +422,13 @@ def r14_4(ctx):
                 ctx.violated("R14.4", run.where(st), f"the sequences are computed over `{norm(src)}`, not over the path list itself: repeated (or reordered) paths make the list of sequences shorter / differently ordered than the list of paths they are paired with", key_of(run, f"seqs-over-copy:{norm(src)[:50]}"))
             elif g_.ifs:
                 ctx.violated("R14.4", run.where(st), "paths are filtered before their sequence is extracted: the sequences no longer line up with the paths", key_of(run, "seqs-filtered"))
+        # a mapping keyed by the path text: repeated lines of the input collapse into one entry
+        for st in walk_own(run.node):
+            if isinstance(st, ast.Assign) and isinstance(st.value, (ast.DictComp, ast.SetComp)) and len(st.value.generators) == 1 and any(is_extract(c) for c in ast.walk(st.value)):
+                g_ = st.value.generators[0]
+                keyed_by_item = isinstance(st.value, ast.SetComp) or norm(st.value.key) == norm(g_.target)
+                if keyed_by_item:
+                    ctx.violated("R14.4", run.where(st), f"the sequences are kept in `{norm(st.targets[0])}`, a {'set' if isinstance(st.value, ast.SetComp) else 'dict keyed by the path text'}: a path that is listed twice in the input has one entry, so fewer records are written than paths were given", key_of(run, f"seqs-keyed-by-path:{norm(st.targets[0])}"))
     ctx.require_count("R14.4", len(rd), 1, run.where(), "loop over the lines of the path file")
     loop = rd[0]
     lv = norm(loop.target)
